@@ -61,7 +61,7 @@ const (
 // connections B and C must be answered; then A gets its answers.
 func (e *env) pipePhase() (ok bool) {
 	r := e.r
-	trials := r.N(3, 25)
+	trials := r.N(5, 25)
 
 	wg := &sync.WaitGroup{}
 	for _, n := range []uint{1, 2} {
